@@ -342,6 +342,8 @@ pub fn run(a: &Args) {
         Cfg { headers: vec![], auth: None, timeout_ms: Some(8000) },
         Cfg { headers: vec![("X-Test-A".into(), "1".into()), ("x-custom".into(), "v w; z=1".into())], auth: Some(("alice".into(), "s3cr3t:with:colons".into())), timeout_ms: Some(8000) },
         Cfg { headers: vec![("Accept-Language".into(), "de".into())], auth: Some(("bob".into(), "".into())), timeout_ms: None },
+        Cfg { headers: vec![("Cookie".into(), "a=b; c=d".into()), ("X-Empty".into(), "".into()), ("x-UPPER-Mixed".into(), "Value With Spaces".into())],
+              auth: Some(("üser".into(), "p%25ä✓ /+=".into())), timeout_ms: Some(9000) },
     ];
     let targets4 = [
         format!("http://127.0.0.1:{}/printers/x?q=1", p4),
@@ -381,7 +383,7 @@ pub fn run(a: &Args) {
                             skip = true; // a stalled server never answers: the other fields do not matter
                         }
                         let plan = mk_plan(id, s["framing"].as_str().unwrap(), status, if cut { Some(20 + (ci % 9)) } else { None }, stall, [0, 1, 5][(ci + i) % 3], ci + i, [0, 3, 700][(ci + i) % 3]);
-                        let cfg = if stall { Cfg { timeout_ms: Some(300), ..cfgs[(ci + i) % 3].clone() } } else { cfgs[(ci + i) % 3].clone() };
+                        let cfg = if stall { Cfg { timeout_ms: Some(300), ..cfgs[(ci + i) % 4].clone() } } else { cfgs[(ci + i) % 4].clone() };
                         let cfg = if n > 1 { cfgs[1].clone() } else { cfg };
                         sends.push((id, kind, targets4[(ci + i) % targets4.len()].clone(), cfg, pattern([0usize, 5, 300][(ci + i) % 3], id), ci + i));
                         pl.push(plan);
@@ -430,7 +432,7 @@ pub fn run(a: &Args) {
             for kind in ["blocking", "async"] {
                 let id = next_rid();
                 let plan = mk_plan(id, ["length", "chunked", "close"][status as usize % 3], status, None, false, 0, status as usize, 10);
-                cx.exchange("HTTP error status", vec![(id, kind, targets4[status as usize % 4].clone(), cfgs[status as usize % 3].clone(), vec![], 2)], vec![plan], None, false);
+                cx.exchange("HTTP error status", vec![(id, kind, targets4[status as usize % 4].clone(), cfgs[status as usize % 4].clone(), vec![], 2)], vec![plan], None, false);
             }
         }
     }
@@ -446,9 +448,20 @@ pub fn run(a: &Args) {
                     for kind in ["blocking", "async"] {
                         let id = next_rid();
                         let plan = mk_plan(id, framing, 200, None, false, frag, id as usize, *resp_pay);
-                        cx.exchange("fragmented response / large payloads", vec![(id, kind, targets4[id as usize % 4].clone(), cfgs[id as usize % 3].clone(), pattern(*req_pay, id), id as usize)], vec![plan], None, false);
+                        cx.exchange("fragmented response / large payloads", vec![(id, kind, targets4[id as usize % 4].clone(), cfgs[id as usize % 4].clone(), pattern(*req_pay, id), id as usize)], vec![plan], None, false);
                     }
                 }
+            }
+        }
+    }
+    // (I) chunked framing whose first chunk ends exactly at the end-of-attributes tag (and one octet before / after)
+    if want("frag") {
+        for delta in [0i64, -1, 1] {
+            for kind in ["blocking", "async"] {
+                let id = next_rid();
+                let mut plan = mk_plan(id, "chunked", 200, None, false, 0, id as usize, 5000);
+                plan.script.frag = (attrs_len_of(&plan) as i64 + delta) as usize;
+                cx.exchange("chunk boundary at the end of the attributes", vec![(id, kind, targets4[id as usize % 4].clone(), cfgs[3].clone(), pattern(100, id), id as usize)], vec![plan], None, false);
             }
         }
     }
